@@ -4,6 +4,7 @@ import (
 	"bytes"
 	"fmt"
 	"regexp"
+	"strconv"
 	"strings"
 	"time"
 
@@ -36,6 +37,13 @@ func (p *C09) Gen(seed uint64, i int, tier string) *scen.Scenario {
 	}
 	r := scen.NewRng(scen.Mix(seed, scen.HashString("C09"), uint64(i)))
 	sc := &scen.Scenario{Property: "C09", Engine: "CONC", Seed: scen.Mix(seed, 109, uint64(i)) >> 12}
+	// cold episodes: the probe is not printed before the history, so whatever the library fills lazily at first
+	// sight (and then keeps for the life of the process) is filled by the history; the pristine bytes come from a
+	// second, fresh world that is given the same set-up and the probe alone (see Check)
+	cold := i%6 == 4
+	if cold {
+		sc.Note = "cold"
+	}
 	sc.World.Isolated = true
 	sc.World.Mode = scen.Pick(r, []string{"production", "testing"})
 	sc.World.Flags = []string{"LnoInterrupt"}
@@ -130,10 +138,28 @@ func (p *C09) Gen(seed uint64, i int, tier string) *scen.Scenario {
 		Args: vals(r.Intn(6)),
 	}
 	probe.Args = noAddresses(probe.Args) // values that print their heap address are new objects at every evaluation of the op
-	sc.Setup = append(sc.Setup, probe)
+	var kin []string                     // text for the history that is related to the probe's text without being equal to it
+	if cold {
+		var own string
+		own, kin = c09RuneKin(r)
+		switch r.Intn(3) {
+		case 0:
+			probe.Msg += " " + own
+		case 1:
+			probe.Args = append(probe.Args, scen.Arg{K: "attr", Key: "ru", Items: []scen.Arg{{K: "s", S: "v " + own}}})
+		default:
+			probe.Msg = own + probe.Msg
+			probe.Args = append(probe.Args, scen.Arg{K: "attr", Key: "ru" + own, Items: []scen.Arg{{K: "s", S: own}}})
+		}
+	} else {
+		sc.Setup = append(sc.Setup, probe)
+	}
 	// history on 1-4 tasks
 	G := scen.Pick(r, []int{1, 1, 2, 3, 4})
 	total := scen.Pick(r, []int{0, 1, 2, 5, 20, 60, 200})
+	if cold && total == 0 {
+		total = scen.Pick(r, []int{1, 3, 9})
+	}
 	sevs := []int{model.Error, model.Warn, model.Info, model.Debug, model.Trace, model.Always, model.OK, model.Success, model.Fail}
 	tk := 0
 	for t := 1; t <= G; t++ {
@@ -154,6 +180,13 @@ func (p *C09) Gen(seed uint64, i int, tier string) *scen.Scenario {
 				// another record from the probe's own call site (the commonest history of all: the same
 				// statement logging again and again), with its own content
 				op = scen.Op{Op: "write_thru", L: op.L, Kind: "pc", Lvl: op.Lvl, Msg: op.Msg, Tok: op.Tok, Args: op.Args, T: c09Near(r, probe.T)}
+			}
+			if len(kin) > 0 && (k == 0 || r.Chance(1, 3)) {
+				if r.Bool() {
+					op.Msg += " " + scen.Pick(r, kin)
+				} else {
+					op.Args = append(op.Args, scen.Arg{K: "attr", Key: scen.Pick(r, []string{"ru", "hx", "ru" + scen.Pick(r, kin)}), Items: []scen.Arg{{K: "s", S: scen.Pick(r, kin)}}})
+				}
 			}
 			for q := range op.Args {
 				if r.Chance(1, 3) {
@@ -374,6 +407,55 @@ func c09Near(r *scen.Rng, p *scen.TimeSpec) *scen.TimeSpec {
 	return &scen.TimeSpec{S: 1500000000 + int64(r.Intn(100000000)), Ns: int64(r.Intn(1e9)), Zone: scen.Pick(r, []string{"", zone})}
 }
 
+// c09RuneKin picks a rune for the probe's text and relatives of it for the history: code points that
+// collide with it when a table is indexed by a truncated or folded code point (the low 16, 8 or 7 bits,
+// another plane), preferring relatives the standard library classifies differently (printable or not).
+func c09RuneKin(r *scen.Rng) (own string, kin []string) {
+	valid := func(c rune) bool { return c >= 0x20 && c < 0x110000 && !(c >= 0xD800 && c < 0xE000) && c != 0x7f }
+	for try := 0; try < 50; try++ {
+		var a rune
+		switch r.Intn(4) {
+		case 0:
+			a = rune(r.Range(0x1F300, 0x1F8FF)) // pictographs
+		case 1:
+			a = rune(r.Range(0xE000, 0xF8FF)) // private use
+		case 2:
+			a = rune(r.Range(0x100, 0xFFFF))
+		default:
+			a = rune(r.Range(0x10000, 0x2FFFF))
+		}
+		if !valid(a) {
+			continue
+		}
+		var rel, differing []rune
+		for _, c := range []rune{a + 0x10000, a - 0x10000, a + 0x20000, a & 0xFFFF, a&0xFF | 0x100, a & 0xFF, a & 0x7F, a ^ 0x8000, a + 0x100, a ^ 1} {
+			if valid(c) && c != a {
+				rel = append(rel, c)
+				if strconv.IsPrint(c) != strconv.IsPrint(a) {
+					differing = append(differing, c)
+				}
+			}
+		}
+		if len(rel) == 0 {
+			continue
+		}
+		if len(differing) > 0 && r.Chance(3, 4) {
+			rel = differing
+		}
+		for n := r.Range(1, 3); n > 0; n-- {
+			kin = append(kin, "h"+string(scen.Pick(r, rel))+"x")
+		}
+		if r.Bool() {
+			// the other way round: the history sees the rune itself first, the probe a relative
+			o := kin[0]
+			kin[0] = "h" + string(a) + "x"
+			return o, kin
+		}
+		return "p" + string(a) + "x", kin
+	}
+	return "p\u00e9x", []string{"h\u00e8x"}
+}
+
 // noAddresses drops the value kinds whose text contains a heap address (func, chan, pointer).
 func noAddresses(as []scen.Arg) []scen.Arg {
 	var out []scen.Arg
@@ -417,6 +499,19 @@ func (p *C09) WellFormed(sc *scen.Scenario) bool {
 		if sc.Setup[i].Probe {
 			pr = &sc.Setup[i]
 			n++
+		}
+	}
+	if sc.Note == "cold" {
+		// the probe is printed after the history only (the pristine bytes come from a reference world)
+		if pr != nil {
+			return false
+		}
+		for i := range sc.Tail {
+			if sc.Tail[i].Probe {
+				pr = &sc.Tail[i]
+				n = 1
+				break
+			}
 		}
 	}
 	if pr == nil || n != 1 || pr.Op != "write_thru" || pr.T == nil || hasAddresses(pr.Args) {
@@ -497,6 +592,34 @@ func (p *C09) Check(sc *scen.Scenario, run *orch.Run, env *orch.Env) []orch.Viol
 			}
 		}
 	}
+	if sc.Note == "cold" {
+		// the pristine bytes: the same set-up and the probe alone, in a world (process) of its own
+		for i := range sc.Tail {
+			if sc.Tail[i].Probe {
+				probe = &sc.Tail[i]
+				break
+			}
+		}
+		if probe == nil || env == nil {
+			return out
+		}
+		ref := *sc
+		ref.Note = "cold-ref"
+		ref.Tasks = nil
+		ref.Tail = []scen.Op{*probe}
+		rr := env.Exec1(&ref)
+		if rr == nil || rr.Result == nil || worldDied(rr) {
+			return []orch.Violation{{Rule: "HARNESS.reference", Witness: "cold", Detail: "the reference world (set-up and the probe alone) did not finish"}}
+		}
+		o := indexOps(rr)[opKey("tail", 0, 1)]
+		if o == nil {
+			return []orch.Violation{{Rule: "HARNESS.reference", Witness: "cold", Detail: "the reference world did not report the probe"}}
+		}
+		if o.Panic != nil {
+			out = append(out, orch.Violation{Rule: "C09.panic", Witness: "pristine", Detail: o.Panic.S})
+		}
+		pristine = own(o.Writes)
+	}
 	if probe == nil {
 		return out
 	}
@@ -544,7 +667,7 @@ func (p *C09) Check(sc *scen.Scenario, run *orch.Run, env *orch.Env) []orch.Viol
 					kind = "colour"
 				}
 				registered := probe.Lvl >= 0 && probe.Lvl < model.MaxLevel
-				out = append(out, orch.Violation{Rule: "C09.bytes", Witness: fmt.Sprintf("format=%s diff=%s level-registered=%v", format, kind, registered),
+				out = append(out, orch.Violation{Rule: "C09.bytes", Witness: fmt.Sprintf("format=%s diff=%s level-registered=%v%s", format, kind, registered, map[bool]string{true: " cold"}[sc.Note == "cold"]),
 					Detail: fmt.Sprintf("the same call (severity %s, fixed timestamp and call site) produced different bytes after a history of %d other calls on %d task(s): first difference at byte %d\n pristine: %.400q\n after:    %.400q", model.LevelName(probe.Lvl), histLen, len(sc.Tasks), d, a, b)})
 			}
 		}
